@@ -4,7 +4,10 @@
 // verification tooling (build tag "verif").
 package verifhook
 
-import "sync/atomic"
+import (
+	"fmt"
+	"sync/atomic"
+)
 
 // Enabled reports whether hooks are compiled in.
 const Enabled = true
@@ -30,3 +33,6 @@ func At(point string, kv ...any) {
 		(*h)(point, kv...)
 	}
 }
+
+// ID returns an opaque identity for the pointer x.
+func ID(x any) string { return fmt.Sprintf("%p", x) }
